@@ -70,7 +70,7 @@ PROPS = {
     "C06": dict(
         rule="schedules: package snaps is rebuilt with a yield before every statement and cooperative mutexes; a case = concurrent scenario (2-4 tests with distinct, prefix-related names sharing one file, 1-3 calls each of "
              "{create, match, mismatch without update, update}, foreign pre-existing entries, shuffled initial order) x schedule (0-3 preemptions at yields placed with weight on file-system/lock statements, tie-break choices). "
-             "values include entries of 4800 and 9000 bytes (beyond 4096/8192 buffer sizes). exhaustive stage: every schedule with <= 2 preemptions of four fixed two-task scenarios (quick: the first at every yield, the others at yields in front of file-system/lock/registry statements; thorough: every yield); the cooperative RWMutex models writer preference (recursive read locks deadlock as in sync.RWMutex); "
+             "values include entries of 4800 and 9000 bytes (beyond 4096/8192 buffer sizes); calls include standalone snapshots; scenarios without pre-existing content may start from a snapshot directory three missing levels deep. exhaustive stage: every schedule with <= 2 preemptions of four fixed two-task scenarios (quick: the first at every yield, the others at yields in front of file-system/lock/registry statements; thorough: every yield); the cooperative RWMutex models writer preference (recursive read locks deadlock as in sync.RWMutex); "
              "exhaustive_big: every single preemption (thorough: every pair) of two scenarios with such big entries. Oracle: every call gets its serial outcome; the final file parses, keeps the initial entries in order with "
              "updated bodies, holds exactly one entry per created slot; no deadlock. race stage: generated goroutine mixes of the five APIs, Skip* and one shared Config under the race detector. "
              "non-trivial = >= 1 preemption and >= 2 writing tasks (schedules); >= 2 APIs (race); distinct = distinct canonical JSON",
@@ -180,10 +180,11 @@ PROPS = {
         rule="case = one test (names with '/', '%', unicode) making 1-12 calls (MatchStandaloneSnapshot with arbitrary bytes incl. CR/CRLF/`---`/NUL/invalid UTF-8 and structured values, "
              "MatchStandaloneJSON, interleaved MatchSnapshot, MatchStandaloneJSON calls that are rejected in every process (invalid JSON, failing matcher) and still are the k-th call) under configs with/without Filename/Ext (also containing '%'), executed 1-3 times per process. Four processes: record (exact file set and bytes), "
              "read-only replay (passes, no write), changed values without update (one error, untouched), update (file replaced wholesale, unchanged files not written); values of 64 KiB and more with a one-byte change. "
-             "real_program stage (black box): a real test program, also checked out under a path with '%' and a blank, normal and -trimpath builds: file k holds exactly value k and replays on CI. "
+             "concurrent_standalone stage: scenarios x schedules on the controlled scheduler with standalone calls of 2-4 live tests (names from the pool incl. case variants), every schedule with <= 2 preemptions at interesting sites for two tests whose names differ in case only. real_program stage (black box): a real test program, also checked out under a path with '%' and a blank, normal and -trimpath builds: file k holds exactly value k and replays on CI. "
              "non-trivial = a value with CR, a terminator-like line, an empty value, >= 2 executions, >= 10 calls, or an update to a shorter value; distinct = distinct canonical JSON",
         assumptions=ASSUME_WB + ["standalone ordinals count per resolved file pattern (README: _1.snap and _1.snap.html for different Ext)"],
         stages=[dict(name="standalone", run="^TestC19_", quick=800, thorough=10000, shards_quick=4, shards_thorough=16),
+                dict(name="concurrent_standalone", engine="sched", run="^TestC19_(ConcurrentStandalone|ExhaustiveCaseNames)$", quick=150, thorough=1500, shards_quick=4, shards_thorough=16),
                 dict(name="real_program", engine="bb", run="^TestC19BB_", quick=40, thorough=600, shards_quick=4, shards_thorough=16, trimpath=True)],
     ),
     "C20": dict(
